@@ -37,6 +37,9 @@ PATH_ATTRS = {"path", "_path", "parent_path", "_parent_path"}
 LITERAL_FUNCS = {"get_literal_expr", "get_literal_from_factory", "_provide_lit_expr", "_get_complex_literal_expr",
                  "_parenthesize"}
 SAFE_TEXT = {"CONST", "CODE", "INT", "REPR", "LITERAL", "SANITIZED"}
+LOSSY_METHODS = {"sub", "subn", "replace", "translate", "lower", "upper", "casefold", "title", "capitalize", "strip",
+                 "lstrip", "rstrip", "encode", "normalize", "removeprefix", "removesuffix", "swapcase", "expandtabs",
+                 "zfill", "center", "ljust", "rjust", "hexdigest", "hash", "crc32", "md5"}
 
 
 class StrKind:
@@ -97,7 +100,10 @@ class StrKind:
         if isinstance(e, ast.Attribute):
             return self._attr(e, fctx, module, depth)
         if isinstance(e, ast.Subscript) and isinstance(e.slice, ast.Slice):
-            return self.classify(e.value, fctx, module, depth + 1)
+            inner = self.classify(e.value, fctx, module, depth + 1)
+            if inner & {"IDENT", "IDENT_KW", "KEY"}:
+                return K("IDENT_LOSSY")  # truncation is not injective
+            return inner
         if isinstance(e, ast.Subscript):
             fact = self._dict_value_kind(e.value, fctx, depth + 1)
             if fact not in (K("OBJ"), K("UNKNOWN")):
@@ -183,6 +189,10 @@ class StrKind:
             kinds = (kinds - {"IDENT"}) | {"IDENT_KW"}
         for k in kinds:
             if k in SAFE_TEXT or k in ("IDENT_KW", "PARAM_KW", "NONE", "SIGNATURE_FIXED"):
+                continue
+            if k == "IDENT_LOSSY":
+                bad2.append("variable name derived from a field id by a non-injective transformation: two different "
+                            "fields can share one generated variable (silently wrong values or a duplicate-key failure)")
                 continue
             if k == "SIGNATURE":
                 bad2.append("str(inspect.Signature) renders parameter defaults with repr(): text chosen by the "
@@ -666,6 +676,15 @@ class StrKind:
     def _call(self, e: ast.Call, fctx: Optional[FnCtx], module: ModuleInfo, depth: int) -> Kinds:
         f = e.func
         fname = f.id if isinstance(f, ast.Name) else (f.attr if isinstance(f, ast.Attribute) else "")
+        if fname in LOSSY_METHODS:
+            # a non-injective transformation of an identifier/key: two distinct field ids can map to one name
+            operands = [f.value] if isinstance(f, ast.Attribute) else []
+            operands += list(e.args)
+            kinds_in: Set[str] = set()
+            for o in operands:
+                kinds_in |= self.classify(o, fctx, module, depth + 1)
+            if kinds_in & {"IDENT", "IDENT_KW", "PARAM_KW", "KEY"}:
+                return K("IDENT_LOSSY")
         if fname in LITERAL_FUNCS:
             return K("LITERAL")
         if fname == "sanitize":
